@@ -258,6 +258,8 @@ struct ExecObs {
     base_put_returns: usize,
     base_shard_bytes: usize,
     global_dedup_answers: usize,
+    /// length of the store's call log when the recorded (last) session began
+    log_base: usize,
 }
 
 #[derive(Clone)]
@@ -305,7 +307,11 @@ fn execute(atoms: &Atoms, cfg: &Cfg, scn: &Scenario, cas: &std::path::Path, pref
         local
             .run_until(async move {
                 for (si, spec) in scn.sessions.iter().enumerate() {
-                    let explore = si + 1 == nsess;
+                    // "inject-retry": the FIRST session is the explored one (faults, release orders); the second repeats
+                    // it in the same process against the same store, fault-free, and is the one that is judged
+                    let retry = scn.family == "inject-retry";
+                    let explore = if retry { si == 0 } else { si + 1 == nsess };
+                    let record = si + 1 == nsess;
                     // "inject-gd": the explored session runs against the same store but with a FRESH local shard
                     // cache, so its first dedup pass misses and the global-dedup second pass does the work
                     let cas_gd = cas.join("second-client");
@@ -315,7 +321,7 @@ fn execute(atoms: &Atoms, cfg: &Cfg, scn: &Scenario, cas: &std::path::Path, pref
                     } else {
                         cas
                     };
-                    let r = std::panic::AssertUnwindSafe(run_session(atoms, spec, cas, pool.clone(), &store2, explore, scn.family == "inject-conc", scn.family == "inject-persist", prefix, budget, obs_ref)).catch_unwind().await;
+                    let r = std::panic::AssertUnwindSafe(run_session(atoms, spec, cas, pool.clone(), &store2, explore, record, scn.family == "inject-conc", scn.family == "inject-persist", prefix, budget, obs_ref)).catch_unwind().await;
                     if let Err(p) = r {
                         obs_ref.panic = Some(format!("{} @ {}", vcore::util::panic_text(&p), vcore::util::last_panic_loc()));
                         break;
@@ -414,7 +420,7 @@ async fn settle(store: &Store, done_flag: &Arc<Mutex<Option<Result<(), String>>>
 }
 
 #[allow(clippy::too_many_arguments)]
-async fn run_session(atoms: &Atoms, spec: &SessionSpec, cas: &std::path::Path, pool: Arc<ThreadPool>, store: &Store, explore: bool, concurrent_mode: bool, persist_mode: bool, prefix: &[usize], budget: usize, obs: &mut ExecObs) {
+async fn run_session(atoms: &Atoms, spec: &SessionSpec, cas: &std::path::Path, pool: Arc<ThreadPool>, store: &Store, explore: bool, record: bool, concurrent_mode: bool, persist_mode: bool, prefix: &[usize], budget: usize, obs: &mut ExecObs) {
     let config = make_config(cas, spec.salt);
     let client: Arc<dyn Client + Send + Sync> = Arc::new(store.clone());
     let session = match FileUploadSession::new_with_client(config, pool, None, client, false).await {
@@ -424,10 +430,11 @@ async fn run_session(atoms: &Atoms, spec: &SessionSpec, cas: &std::path::Path, p
             return;
         },
     };
-    if explore {
+    if record {
         let g = store.st.lock().unwrap();
         obs.base_put_returns = g.put_returns;
         obs.base_shard_bytes = g.shard_bytes_ok;
+        obs.log_base = g.log.len();
     }
     let ops = driver_ops(atoms, spec);
     let nfiles = spec.files.len();
@@ -466,7 +473,7 @@ async fn run_session(atoms: &Atoms, spec: &SessionSpec, cas: &std::path::Path, p
         while k < inflight.len() {
             let r = inflight[k].done.lock().unwrap().take();
             if let Some(r) = r {
-                if explore {
+                if record {
                     obs.api.push((inflight[k].name.clone(), r.clone()));
                 }
                 if r.is_err() {
@@ -632,7 +639,7 @@ async fn run_session(atoms: &Atoms, spec: &SessionSpec, cas: &std::path::Path, p
         }
     }
     let all_issued = if concurrent { finalize_issued } else { op_idx == ops.len() };
-    if explore {
+    if record {
         obs.all_api_ok = all_ok && obs.hang.is_none() && !obs.replay_diverged;
         obs.finalized = all_ok && all_issued && inflight.is_empty();
         if let Some(slot) = FINAL_METRICS.with(|f| f.borrow_mut().take()) {
@@ -641,7 +648,7 @@ async fn run_session(atoms: &Atoms, spec: &SessionSpec, cas: &std::path::Path, p
     } else {
         FINAL_METRICS.with(|f| f.borrow_mut().take());
     }
-    if explore {
+    if record {
         obs.pointers = pointer_slot.lock().unwrap().clone();
     }
     // drop whatever is left (cleaners hold the session)
@@ -682,7 +689,7 @@ fn check(obs: &ExecObs) -> Vec<(String, String)> {
         }
     }
     // (2) a failed store call surfaces as an error of some session call
-    let failed_calls: Vec<String> = obs.log.iter().filter_map(|c| match c {
+    let failed_calls: Vec<String> = obs.log.iter().skip(obs.log_base).filter_map(|c| match c {
         Call::PutDone { id, ok: false } => Some(format!("put #{id}")),
         Call::ShardDone { id, ok: false } => Some(format!("upload_shard #{id}")),
         _ => None,
@@ -779,6 +786,12 @@ fn scenarios(tier: Tier) -> Vec<Scenario> {
     // (and may have failed) mid-file, and an empty file
     v.push(persist(vec![f(&[0, 1, 2, 3, 4], 0), f(&[0, 1], 0)]));
     v.push(persist(vec![f(&[0, 1, 2, 3, 4], 0), f(&[], 0)]));
+    // retry: the explored session (with its injected failures and release orders) is followed, in the same process
+    // and against the same store, by a fault-free repeat of itself - "try the upload again"; whatever the first
+    // attempt left behind, a repeat that reports success leaves every file reconstructible
+    let retry = |files: Vec<FileSpec>| Scenario { family: "inject-retry".into(), sessions: vec![SessionSpec::seq(files.clone()), SessionSpec::seq(files)] };
+    v.push(retry(vec![f(&[0, 1, 2, 3, 4], 0)]));
+    v.push(retry(vec![f(&[0, 1, 2], 0), f(&[3, 4], 0)]));
     // global dedup: second session on a fresh local shard cache against the same store
     let gd = |s1: Vec<FileSpec>, s2: Vec<FileSpec>| Scenario { family: "inject-gd".into(), sessions: vec![SessionSpec::seq(s1), SessionSpec::seq(s2)] };
     v.push(gd(vec![f(&[0, 1, 2, 3], 0)], vec![f(&[0, 1, 2, 3], 0)]));
@@ -996,10 +1009,22 @@ fn main() {
                     continue;
                 }
                 // C14x judges successful sessions only, so it needs no injected failure (and no persisting driver)
-                if prop == "C14x" && scn.family == "inject-persist" {
+                if prop == "C14x" && (scn.family == "inject-persist" || scn.family == "inject-retry") {
+                    continue;
+                }
+                if fault_free && scn.family == "inject-retry" {
                     continue;
                 }
                 for budget in if fault_free || prop == "C14x" { vec![0usize] } else { args.tier.pick(vec![0usize, 1], vec![0, 1, 2, 99]) } {
+                    if budget == 0 && scn.family == "inject-retry" {
+                        continue; // without a failure in the first attempt there is nothing to retry
+                    }
+                    // With several session shards, which records share a shard depends on the modification-time order
+                    // of files written within one clock tick (consolidation sorts by mtime), so which xorbs a retry
+                    // finds already recorded after a failed shard upload is not a function of the explored choices.
+                    if scn.family == "inject-retry" && cfg.shard_min.is_some() {
+                        continue;
+                    }
                     let spec = json!({"cfg": cfg.to_json(), "scenario": scn.to_json(), "budget": budget, "cap": args.tier.pick(12000, 40000)});
                     jobs.push(Job { name: format!("{}/{}/b{budget}", cfg.name, scn.label()), env: cfg.env(), args: vec!["--worker".into(), spec.to_string()] });
                 }
